@@ -33,10 +33,12 @@ var lmRules = map[string]lmRule{
 	},
 	"C02": {
 		rule: "cases = histories on 2-4 nodes without trusted or rogue sealers, proposals at arbitrary nodes with arbitrary delayed delivery (unrestricted mode) or serialized-spender mode; oracle = at every quiescent point (pool and orphan buffer empty) over the union of confirmed vertices every wallet but the genesis issuer has received >= spent (math/big over the harness archive); non-trivial = at some moment a node held two tips that do not see each other; distinct by operation-log fingerprint",
-		nontrivial: func(m *lm) bool { return m.cfg.Nodes >= 2 && m.labels["state:multi-tip"] > 0 && m.labels["c02:quiescent-eval"] > 0 },
+		nontrivial: func(m *lm) bool {
+			return m.cfg.Nodes >= 2 && m.labels["state:multi-tip"] > 0 && m.labels["c02:quiescent-eval"] > 0
+		},
 	},
 	"C03": {
-		rule: "cases = ledger histories plus replay operators (re-deliver an admitted/parked/dropped/checkpointed vertex, re-propose a sealed or dropped transaction, same transaction wrapped by a second sealer, concurrent triple delivery); oracle = after every operation no transaction hash in two vertices of live+checkpoint, no vertex hash twice, index == {tx(v)->hash(v)} exactly, re-proposal after a drop not refused as existing; non-trivial = at least one duplicate was offered; distinct by operation-log fingerprint",
+		rule:       "cases = ledger histories plus replay operators (re-deliver an admitted/parked/dropped/checkpointed vertex, re-propose a sealed or dropped transaction, same transaction wrapped by a second sealer, concurrent triple delivery); oracle = after every operation no transaction hash in two vertices of live+checkpoint, no vertex hash twice, index == {tx(v)->hash(v)} exactly, re-proposal after a drop not refused as existing; non-trivial = at least one duplicate was offered; distinct by operation-log fingerprint",
 		nontrivial: func(m *lm) bool { return m.dupOffer > 0 },
 	},
 	"C06": {
@@ -94,8 +96,8 @@ func runLedgerCases(t *testing.T, st *stats, prop string, r lmRule) {
 	truncEvery := envInt("VERIF_TRUNC_EVERY", 0) // every n-th case includes a truncation (0 = never)
 	caseNo := 0
 	rapid.Check(t, func(rt *rapid.T) {
-		if worldsMade >= maxWorlds() {
-			rt.Skip("world budget of this process used up")
+		if outOfBudget(st) {
+			return
 		}
 		worldsMade++
 		caseNo++
